@@ -36,6 +36,7 @@ import (
 //	'P' Size goroutines send 4 messages each, concurrently; wait for all
 //	'Z' start a goroutine that issues CloseSend concurrently with what follows
 //	'u' send one message that the peer's decoder rejects
+//	'Q' Size goroutines receive until an error, concurrently; wait for all
 type Act struct {
 	Op   byte
 	Size int
@@ -93,6 +94,7 @@ type Event struct {
 	Size      int
 	Seq       uint32 // for sends: sequence number submitted
 	Sender    uint16 // for sends: sending goroutine
+	Rcv       uint16 // for receives: receiving goroutine (0 = the script's own)
 }
 
 // Cat is the error category of the event.
@@ -349,6 +351,28 @@ func (x *Exec) runActs(l *RPCLog, side byte, st drpc.Stream, acts []Act, cancel 
 					break
 				}
 			}
+		case 'Q':
+			var wg sync.WaitGroup
+			for g := 1; g <= a.Size; g++ {
+				g := g
+				wg.Add(1)
+				go func() {
+					defer wg.Done()
+					for i := 0; i < 100000; i++ {
+						var out []byte
+						ev := l.begin(side, "recv", 0, 0)
+						l.mu.Lock()
+						ev.Rcv = uint16(g)
+						l.mu.Unlock()
+						err := st.MsgRecv(&out, payload.Enc{})
+						l.endMsg(ev, err, out)
+						if err != nil {
+							return
+						}
+					}
+				}()
+			}
+			wg.Wait()
 		case 'h':
 			ev := l.begin(side, "closesend", 0, 0)
 			err := st.CloseSend()
@@ -591,7 +615,7 @@ func validate(s *Script, strict bool) bool {
 		case 'Z':
 			me.half = true
 			me.pc++
-		case 'r', 'R':
+		case 'r', 'R', 'Q':
 			if peer.sent > me.got {
 				me.got++
 				if a.Op == 'r' {
